@@ -630,6 +630,10 @@ class Extractor:
     # ---- calls ---------------------------------------------------------
     def call(self, n: ast.Call, env: dict, depth: int) -> Any:
         d = dotted(n.func)
+        # shape / type casts that do not change values: x.view(T), x.astype(T), x.copy(), x.item()
+        if isinstance(n.func, ast.Attribute) and n.func.attr in ("view", "astype", "copy", "item") \
+                and not (d and d.split(".")[0] in ("np", "numpy", "copy")):
+            return self.expr(n.func.value, env, depth)
         args = [self.expr(a, env, depth) for a in n.args]
         kwargs = {k.arg: self.expr(k.value, env, depth) for k in n.keywords if k.arg}
         if d is not None:
